@@ -17,3 +17,4 @@ echo "{\"confirmed\": \"demo passes on clean tree, fails with patch (run in scra
 for c in "$@"; do VERIF_REPO=$W VERIF_RUN_TAG=seed2 ./check $c > /tmp/seed_check_${NAME}_$c.txt 2>&1; rc=$?; echo "\"$c\": {\"quick_rc\": $rc, \"clauses\": \"$(grep -o 'violated clause [A-Za-z_]*' /tmp/seed_check_${NAME}_$c.txt | sort | uniq -c | tr '\n' ';' | tr -s ' ')\"}," >> /verif/seeded/$NAME/verif_result.json; grep -E "VIOLATION|violated clause|INCONCLUSIVE|validated" /tmp/seed_check_${NAME}_$c.txt | cut -c1-300 | head -4; echo "$NAME $c rc=$rc"; done
 echo "\"_\": {}}}" >> /verif/seeded/$NAME/verif_result.json
 git -C $W checkout -q -- .
+rm -rf /tmp/verif-altcache
